@@ -201,6 +201,15 @@ def extract_confined_goal (cfg : Cfg) : Prop :=
   ∀ (dest audit : Path) (fs0 : FS) (vsn : Option Str) (ms : List Member),
     Ready cfg dest audit fs0 → Confined dest audit fs0 (extractPackage cfg dest audit vsn fs0 ms).fs
 
+/-- after `removePath(content); makedirs(content)` the workspace holds no file at all, so no inode
+is shared with the rest of the tree: the separation hypothesis of `Ready` holds for free -/
+theorem sep_of_fresh_workspace {dest : Path} {fs : FS}
+    (h : ∀ p, Inside dest p → fs.look p = none ∨ IsDir fs p) : Sep dest fs := by
+  intro p q i hp _ hl _
+  rcases h p hp with hn | ⟨m, hm⟩
+  · rw [hn] at hl; cases hl
+  · rw [hm] at hl; cases hl
+
 theorem confined_of_runInv {dest audit : Path} {cfg : Cfg} {fs0 fs : FS} (hr : Ready cfg dest audit fs0)
     (h : RunInv dest audit fs0 fs) : Confined dest audit fs0 fs := by
   refine ⟨h.names, ?_⟩
